@@ -37,13 +37,15 @@ def ts_pattern(end, kind):
     return [10] * ((end + 1) // 2) + [20] * (end // 2)
 
 
-def make_part(pid, leader, nb, start, end, tskind=2, isr_short=False):
+def make_part(pid, leader, nb, start, end, tskind=2, isr_short=False, leader_last=False):
     replicas = [leader] if nb == 1 else [leader, leader % nb + 1]
-    return {"id": pid, "leader": leader, "replicas": replicas, "isr": replicas[:1] if isr_short else list(replicas),
+    if leader_last:
+        replicas.reverse()     # the leader need not be the first replica
+    return {"id": pid, "leader": leader, "replicas": replicas, "isr": [leader] if isr_short else list(replicas),
             "start": start, "end": end, "ts": ts_pattern(end, tskind), "lerr": 0, "merr": 0}
 
 
-def make_cs(nb, shapes, ranges, tskinds=None, committed=None, isr_short=(), controller=1, coord=None):
+def make_cs(nb, shapes, ranges, tskinds=None, committed=None, isr_short=(), controller=1, coord=None, leader_last=()):
     """shapes: partitions per topic; ranges[(t, p)] = (start, end)"""
     topics = []
     for ti, (name, n) in enumerate(zip(TOPICS, shapes)):
@@ -51,7 +53,7 @@ def make_cs(nb, shapes, ranges, tskinds=None, committed=None, isr_short=(), cont
         for p in range(n):
             leader = (p + ti) % nb + 1
             st, en = ranges.get((name, p), (0, 3))
-            parts.append(make_part(p, leader, nb, st, en, (tskinds or {}).get((name, p), 2), (name, p) in isr_short))
+            parts.append(make_part(p, leader, nb, st, en, (tskinds or {}).get((name, p), 2), (name, p) in isr_short, (name, p) in leader_last))
         topics.append({"name": name, "parts": parts})
     groups = []
     for gi, g in enumerate(("g1", "g2")):
@@ -93,7 +95,7 @@ def with_fault(cs, fault):
 def random_cs(rng, nb=None, shapes=None):
     nb = nb or rng.choice([2, 3])
     shapes = shapes or (rng.randint(1, 3), rng.randint(1, 3))
-    ranges, tsk, com, short = {}, {}, {}, set()
+    ranges, tsk, com, short, llast = {}, {}, {}, set(), set()
     for ti, name in enumerate(TOPICS):
         for p in range(shapes[ti]):
             st = rng.randint(0, 4)
@@ -101,11 +103,13 @@ def random_cs(rng, nb=None, shapes=None):
             tsk[(name, p)] = rng.randrange(4)
             if rng.random() < 0.3:
                 short.add((name, p))
+            if rng.random() < 0.4:
+                llast.add((name, p))
             for g in ("g1", "g2"):
                 if rng.random() < 0.6:
                     com[(g, name, p)] = rng.randint(0, 4)
     return make_cs(nb, shapes, ranges, tsk, com, short, controller=rng.randint(1, nb),
-                   coord={"g1": rng.randint(1, nb), "g2": rng.randint(1, nb)})
+                   coord={"g1": rng.randint(1, nb), "g2": rng.randint(1, nb)}, leader_last=llast)
 
 
 def random_fault(rng, cs):
@@ -129,12 +133,22 @@ class Cases:
         self.states = []     # cluster states (csi = index + 1)
         self.jobs = []       # (csi, versions, [queries])
         self.n = 0
+        self.ids = set()
 
     def add_state(self, cs):
         self.states.append(cs)
         return len(self.states)
 
     def add_job(self, csi, versions, queries, chunk=150):
+        uniq = []
+        for q in queries:      # case ids are unique: the same query put again (other API versions) gets a suffix
+            n, qid = 1, q["id"]
+            while qid in self.ids:
+                n += 1
+                qid = "%s#%d" % (q["id"], n)
+            self.ids.add(qid)
+            uniq.append(dict(q, id=qid))
+        queries = uniq
         for k in range(0, len(queries), chunk):
             qs = queries[k:k + chunk]
             if qs:
@@ -312,6 +326,9 @@ def q_commit(rng, csi, cs, n):
 
 def version_sets(rng, n):
     out = [dict(MAXVERS), dict(MINVERS), {"listoffsets": 3, "offsetfetch": 2, "offsetcommit": 3, "metadata": 6}]
+    if n >= 11:
+        # every version of every API the client and the fake brokers share is the negotiated one in some set
+        out += [{"listoffsets": 1 + i % 5, "offsetfetch": i % 6, "offsetcommit": i % 8, "metadata": 1 + i % 8} for i in range(8)]
     while len(out) < n:
         out.append({k: rng.randint(MINVERS[k], MAXVERS[k]) for k in MAXVERS})
     return out[:n]
@@ -321,7 +338,7 @@ def enumerate_cases(tier, seed):
     rng = random.Random(seed * 7919 + 19)
     C = Cases()
     thorough = tier == "thorough"
-    vsets = version_sets(rng, 12 if thorough else 3)
+    vsets = version_sets(rng, 12 if thorough else 4)
 
     # --- Seek: every whence x offsets -1..5 x with/without SeekDontCheck x current positions, per (first, last)
     ranges = [(f, l) for f in range(0, 5) for l in range(f, 5)]
@@ -350,12 +367,12 @@ def enumerate_cases(tier, seed):
     c22 = make_cs(2, (2, 2), {("ta", 0): (1, 4), ("ta", 1): (0, 2), ("tb", 0): (2, 3), ("tb", 1): (0, 0)},
                   tskinds={("ta", 0): 2, ("ta", 1): 0, ("tb", 0): 3},
                   committed={("g1", "ta", 0): 3, ("g1", "tb", 1): 0, ("g2", "ta", 1): 2, ("g2", "ta", 0): 4}, isr_short={("ta", 1)},
-                  coord={"g1": 1, "g2": 2})
+                  coord={"g1": 1, "g2": 2}, leader_last={("tb", 1), ("ta", 1)}, controller=2)
     states.append(("c22", c22))
     states.append(("c22-lerr", with_fault(c22, ("lerr", "ta", 1, 6))))
     states.append(("c22-down", with_fault(c22, ("down", 2))))
     states.append(("c22-merr", with_fault(c22, ("merr", "tb", 0, 9))))
-    nrand = 40 if thorough else 4
+    nrand = 72 if thorough else 4
     for k in range(nrand):
         cs = random_cs(rng)
         f = random_fault(rng, cs) if k % 2 == 0 else None
@@ -383,7 +400,15 @@ def enumerate_cases(tier, seed):
             qs += q_offsetfetch(csi, cs)
             qs += q_commit(rng, csi, cs, 60 if thorough else 25)
         elif name.endswith("blackhole"):
-            qs += q_listoffsets_random(rng, csi, cs, 12)
+            # a dial to a black-holed leader lasts the whole dial time-out (15 s, generous so that load never
+            # becomes an answer): few requests, exactly one entry on the unreachable leader, one cluster each
+            tps = all_tps(cs)
+            bad = [(t, p) for (t, p) in tps if not up_leader(cs, t, p)]
+            good = [(t, p) for (t, p) in tps if up_leader(cs, t, p)]
+            for j in range(6):
+                reqs = [(t, p, rng.choice(TS_PROBES)) for (t, p) in rng.sample(good, rng.randint(1, len(good)))]
+                reqs.insert(rng.randint(0, len(reqs)), bad[j % len(bad)] + (rng.choice([-2, -1, 10]),))
+                C.add_job(csi, vsets[j % len(vsets)], [q_listoffsets_one(csi, reqs, "bh%d/%s" % (j, req_tag(reqs)))])
             qs += q_offsetfetch(csi, cs, rng, 10)
         else:
             qs += q_listoffsets_random(rng, csi, cs, 120 if thorough else 30)
@@ -393,7 +418,7 @@ def enumerate_cases(tier, seed):
         if thorough and name.startswith("c22") and name != "c22-merr":
             # every subset of {4 partitions} x {first, last, one time} in one request
             C.add_job(csi, vsets[(k + 1) % len(vsets)], q_listoffsets_pairs_exhaustive(csi, cs, (-2, -1, 15)), chunk=400)
-        if thorough:
+        if thorough and not name.endswith("blackhole"):
             # the same state seen through other API versions
             for j in range(2):
                 C.add_job(csi, vsets[(k + 3 + 5 * j) % len(vsets)],
@@ -429,6 +454,23 @@ def run_driver(ctx, jobs, tag="jobs"):
     n = sum(len(j["queries"]) for j in jobs)
     if len(rows) != n:
         raise Inconclusive("driver answered %d of %d queries" % (len(rows), n))
+    return rows
+
+
+def settle(ctx, rows, jobs_by_id):
+    """A watchdog expiry or a time-out of the harness' own (generous) deadlines may be the machine's load and not
+    the library: such queries are run again alone; what they answer then is what TLC judges (a hang that
+    reproduces stays a hang and is rejected by the judge)."""
+    again = [i for i, r in enumerate(rows) if r["a"].get("hang") or "time-out" in r["a"].get("drivererr", "")]
+    if again:
+        if len(again) > 40:
+            raise Inconclusive("%d queries hung or timed out (machine overloaded?), e.g. %s" % (len(again), rows[again[0]]["id"]))
+        ctx.notes.append("%d queries hung or timed out in the parallel run and were repeated alone" % len(again))
+        for i in again:
+            job = jobs_by_id[rows[i]["id"]]
+            r2 = run_driver(ctx, [job], tag="retry")
+            r2[0]["csi"] = rows[i]["csi"]
+            rows[i] = r2[0]
     for r in rows:
         if "drivererr" in r["a"]:
             raise Inconclusive("driver error on %s: %s" % (r["id"], r["a"]["drivererr"]))
@@ -438,8 +480,12 @@ def run_driver(ctx, jobs, tag="jobs"):
 def judge_shard(ctx, k, rows, csfile, mode, results):
     cf = os.path.join(ctx.work, "off-cases-%d.ndjson" % k)
     write_ndjson(cf, rows)
-    results[k] = ctx.tlc(ENGINE, "OffsetsCheck", "OffsetsCheck.cfg", workers=1, timeout=1500, tag="judge-%s-%d" % (mode, k),
-                         env={"CASES": cf, "CSFILE": csfile, "MODE": mode})
+    try:
+        # no trace-explorer spec files: the shards share one spec directory
+        results[k] = ctx.tlc(ENGINE, "OffsetsCheck", "OffsetsCheck.cfg", workers=1, timeout=1500, tag="judge-%s-%d" % (mode, k),
+                             env={"CASES": cf, "CSFILE": csfile, "MODE": mode}, extra=["-noGenerateSpecTE"])
+    except Exception as e:       # reported by the caller as inconclusive
+        results[k] = {"error": "judge thread failed: %r" % (e,), "timeout": False, "violated": None, "out": "", "distinct": 0, "generated": 0}
 
 
 def judge(ctx, rows, states, nshards, mode="strict"):
@@ -466,7 +512,7 @@ def mismatches(out):
     return res
 
 
-def check(ctx, rows, states, nshards, jobs_by_id, maxreport=25):
+def check(ctx, rows, states, nshards, jobs_by_id, maxreport=12):
     """TLC judges all rows; returns (accepted, failing [(row, fields)], distinct, generated)"""
     shards, results = judge(ctx, rows, states, nshards)
     distinct = generated = 0
@@ -508,6 +554,55 @@ def check(ctx, rows, states, nshards, jobs_by_id, maxreport=25):
     return accepted, failing, distinct, generated
 
 
+def corrupt(row):
+    """a copy of an accepted case with one field of the answer falsified (None when the case has no such field)"""
+    r = json.loads(json.dumps(row))
+    a, api = r["a"], r["api"]
+    if api == "seek" and a["steps"]:
+        a["steps"][-1]["aoff"] += 1
+    elif api == "readoffset" and a["err"] == 0:
+        a["off"] += 1
+        a["first"] += 1
+    elif api == "readpartitions" and a["err"] == 0 and a["parts"]:
+        a["parts"][0]["isr"] = a["parts"][0]["isr"][1:] + [{"id": 9, "host": "b9", "port": 9092}]
+    elif api == "metadata" and a["err"] == 0 and any(t["parts"] for t in a["topics"]):
+        t = next(t for t in a["topics"] if t["parts"])
+        t["parts"][0]["leader"] = {"id": 9, "host": "b9", "port": 9092}
+    elif api == "listoffsets" and a["err"] == 0 and any(p["err"] == 0 for p in a["parts"]):
+        p = next(p for p in a["parts"] if p["err"] == 0)
+        p["last"] += 1
+    elif api == "offsetfetch" and a["err"] == 0 and a["parts"]:
+        a["parts"][-1]["off"] += 1
+    elif api == "commit" and a["cerr"] == 0 and a["co"]["offs"]:
+        a["co"]["offs"][0][1] += 1
+    else:
+        return None
+    r["id"] = "falsified:" + r["id"]
+    return r
+
+
+def vacuity_guard(ctx, rows, states, failing_ids):
+    """the judge must reject falsified answers: a few accepted cases per API with one field changed"""
+    bad = []
+    per = {}
+    for r in rows:
+        if r["id"] in failing_ids or per.get(r["api"], 0) >= 4:
+            continue
+        c = corrupt(r)
+        if c:
+            per[r["api"]] = per.get(r["api"], 0) + 1
+            bad.append(c)
+    _, rr = judge(ctx, bad, states, 1, mode="report")
+    r = rr[0]
+    if r["error"] or r["timeout"] or r["violated"]:
+        raise Inconclusive("vacuity guard run failed: " + (r["error"] or r["out"][-1500:]))
+    rejected = {cid for cid, _ in mismatches(r["out"])}
+    missed = [c["id"] for c in bad if c["id"] not in rejected]
+    if missed or (not failing_ids and len(per) < 7):
+        raise Inconclusive("vacuity guard: the judge accepted falsified answers %s (APIs covered: %s)" % (missed[:5], sorted(per)))
+    return len(bad)
+
+
 def single_jobs(C):
     """case id -> a one-query job that reproduces the case"""
     out = {}
@@ -522,10 +617,12 @@ def run(ctx):
     ctx.log("Offsets.tla anchors ok (%d ASSUMEs)" % nassume)
     C = enumerate_cases(ctx.tier, ctx.seed)
     ctx.log("%d cluster states, %d jobs, %d cases" % (len(C.states), len(C.jobs), C.n))
-    rows = run_driver(ctx, C.jobs)
+    singles = single_jobs(C)
+    rows = settle(ctx, run_driver(ctx, C.jobs), singles)
     ctx.log("driver answered %d queries" % len(rows))
     nshards = 6 if ctx.tier == "quick" else 16
-    accepted, failing, distinct, generated = check(ctx, rows, C.states, nshards, single_jobs(C))
+    accepted, failing, distinct, generated = check(ctx, rows, C.states, nshards, singles)
+    nguard = vacuity_guard(ctx, rows, C.states, {r["id"] for r, _ in failing})
     per_api, per_api_fail = {}, {}
     for r in rows:
         per_api[r["api"]] = per_api.get(r["api"], 0) + 1
@@ -538,22 +635,28 @@ def run(ctx):
     faults = {"lerr": sum(1 for s in C.states if any(p["lerr"] for t in s["topics"] for p in t["parts"])),
               "merr": sum(1 for s in C.states if any(p["merr"] for t in s["topics"] for p in t["parts"])),
               "down": sum(1 for s in C.states if s["down"])}
+    seen_versions = {}
+    for r in rows:
+        for api, v in (r.get("v") or {}).items():
+            seen_versions.setdefault(api, set()).add(v)
     pick = lambda api: next((r for r in rows if r["api"] == api), None)
     samples = [x for x in (pick("seek"), pick("listoffsets"), pick("commit"), rows[len(rows) // 2]) if x]
     return {"engine": ENGINE, "states": distinct, "transitions": generated,
             "traces_validated_against_impl": accepted, "cases": len(rows), "cases_rejected": len(failing),
             "cluster_states": len(C.states), "clusters_built": len(C.jobs), "states_with_fault": faults,
             "per_api": per_api, "per_api_rejected": per_api_fail, "anchor_assumes": nassume,
+            "falsified_answers_rejected_by_judge": nguard,
             "seek_steps": sum(len(r["q"]["steps"]) for r in seeks), "seek_whence_off_dc_combinations": len(whence_cov),
             "listoffsets_requests_entries_max": max([len(r["q"]["reqs"]) for r in lo] or [0]),
             "listoffsets_with_failing_partition": sum(1 for r in lo if any(p["err"] != 0 for p in r["a"].get("parts", []))),
             "api_version_sets": [json.loads(v) for v in versions][:12], "api_version_sets_count": len(versions),
+            "api_versions_received_by_brokers": {k: sorted(v) for k, v in sorted(seen_versions.items())},
             "samples": [{"id": s["id"], "q": s["q"], "a": s["a"], "cs": C.states[s["csi"] - 1]} for s in samples[:4]]}
 
 
 def replay(ctx, path):
     job = json.load(open(os.path.join(path, "job.json")))
-    rows = run_driver(ctx, [job], tag="replay")
+    rows = settle(ctx, run_driver(ctx, [job], tag="replay"), {job["queries"][0]["id"]: job})
     accepted, failing, _, _ = check(ctx, rows, [job["cs"]], 1, {rows[0]["id"]: job})
     print("replay: %d accepted, %d rejected" % (accepted, len(failing)))
     return 1 if ctx.violations else 0
